@@ -1,0 +1,11 @@
+//go:build !verif
+
+package taskctl
+
+import "github.com/taskctl/taskctl/pkg/scheduler"
+
+// verifInit and verifIteration are instrumentation points that are only active with the "verif" build tag.
+
+func verifInit(s *Scheduler) {}
+
+func (s *Scheduler) verifIteration(g *scheduler.ExecutionGraph) {}
